@@ -1,92 +1,72 @@
 import Uds.Model.DecodeDtc
+import Uds.Model.Decode
 import Uds.Model.Editions
 import Uds.Generated.Groups
 /-
-  Tie by translation: the sub-function / mode-of-operation dispatch lists of ReadDTCInformation and RequestFileTransfer are read out of
-  the source text on every run (harness/extract.py, AST walk) and the model's dispatch functions are proved equal to membership in
-  those lists, for every byte value.  An edit of one of the lists in /repo breaks one of these kernel-checked equalities.
+  Tie for the dispatch of ReadDTCInformation and RequestFileTransfer, for every sub-function / mode-of-operation byte.
+
+  On every run harness/extract.py runs the real code on fixed probes (`Generated.Groups`):
+    * which of 13 argument kits `ReadDTCInformation.make_request` accepts (a bit mask per sub-function, 2020 edition),
+    * how `ReadDTCInformation.interpret_response` reads each of 13 probe replies (an outcome code per sub-function and probe),
+    * the same for `RequestFileTransfer` (4 kits, 8 probe replies) per mode-of-operation byte.
+  Here the model's builders and interpreters are evaluated by the kernel on the same kits and probes, for all 256 byte values, and
+  the results must be the recorded tables.  An entry added to or dropped from one of the dispatch lists of /repo changes a row;
+  a rewrite of the lists that keeps the behaviour does not (the tables are behavioural, not a reading of the source text).
 -/
 namespace Uds.Tie.Groups
 open Uds Uds.Model
 
-def lst (tbl : List (String × List Nat)) (name : String) : List Nat := ((tbl.find? (·.1 == name)).map (·.2)).getD []
-def present (tbl : List (String × List Nat)) (names : List String) : Bool := names.all (fun n => (tbl.find? (·.1 == n)).isSome)
+def isOk {α : Type} (r : Py α) : Bool := match r with | .ok _ => true | .error _ => false
 
-theorem req_lists_present : present Generated.dtcReqLists
-    ["request_subfn_no_param", "request_subfn_status_mask", "request_subfn_mask_record_plus_snapshot_record_number",
-     "request_subfn_mask_record_plus_snapshot_record_number_plus_memory_selection", "request_subfn_snapshot_record_number",
-     "request_subfn_mask_record_plus_extdata_record_number", "request_subfn_mask_record_plus_extdata_record_number_plus_memory_selection",
-     "request_subfn_severity_plus_status_mask", "request_subfn_mask_record", "request_subfn_status_mask_plus_memory_selection"] = true ∧
-    Generated.dtcReqLists.length = 10 := by decide
+/-- the argument kits of `extract.DTC_KITS`, in the same order -/
+def dtcKits : List DtcArgs := [
+  { sf := 0 }, { sf := 0, statusMask := some 1 }, { sf := 0, dtc := some 0x123456, snapRec := some 2 }, { sf := 0, dtc := some 0x123456, snapRec := some 2, memSel := some 3 },
+  { sf := 0, snapRec := some 2 }, { sf := 0, dtc := some 0x123456, extRec := some 4 }, { sf := 0, dtc := some 0x123456, extRec := some 4, memSel := some 3 },
+  { sf := 0, statusMask := some 1, severityMask := some 0x20 }, { sf := 0, dtc := some 0x123456 }, { sf := 0, statusMask := some 1, memSel := some 3 }, { sf := 0, extRec := some 4 },
+  { sf := 0, fgid := some 0x33, statusMask := some 1, severityMask := some 0x20 }, { sf := 0, fgid := some 0x33 } ]
 
-/-- the request grouping of `make_request`, as its lists and `==` tests say -/
-def reqGroupOf (sf : Nat) : DtcReqGroup :=
-  let m := fun n => (lst Generated.dtcReqLists n).contains sf
-  if m "request_subfn_no_param" then .noParam
-  else if m "request_subfn_status_mask" then .statusMask
-  else if m "request_subfn_mask_record_plus_snapshot_record_number" then .dtcSnap
-  else if m "request_subfn_mask_record_plus_snapshot_record_number_plus_memory_selection" then .dtcSnapMem
-  else if m "request_subfn_snapshot_record_number" then .snapRec
-  else if m "request_subfn_mask_record_plus_extdata_record_number" then .dtcExt
-  else if m "request_subfn_mask_record_plus_extdata_record_number_plus_memory_selection" then .dtcExtMem
-  else if m "request_subfn_severity_plus_status_mask" then .sevStatus
-  else if m "request_subfn_mask_record" then .dtcOnly
-  else if m "request_subfn_status_mask_plus_memory_selection" then .statusMem
-  else if sf == 0x16 && Generated.dtcReqEq.contains 0x16 then .extRecOnly
-  else if sf == 0x42 && Generated.dtcReqEq.contains 0x42 then .wwhMask
-  else if sf == 0x55 && Generated.dtcReqEq.contains 0x55 then .wwhPerm
-  else .other
+def maskOf (l : List Bool) : Nat := (l.zipIdx.map (fun p => if p.1 then 2 ^ p.2 else 0)).sum
 
-theorem req_groups : ∀ sf : Fin 256, dtcReqGroup sf.val = reqGroupOf sf.val := by decide +kernel
+def dtcReqMask (sf : Nat) : Nat := maskOf (dtcKits.map (fun k => isOk (dtcMakeRequest 2020 { k with sf := sf })))
 
-theorem resp_lists_present : present Generated.dtcRespLists
-    ["response_subfn_dtc_availability_mask_plus_dtc_record", "response_subfn_dtc_availability_mask_plus_dtc_record_with_severity",
-     "response_subfn_number_of_dtc", "response_subfn_dtc_plus_fault_counter", "response_subfn_dtc_plus_sapshot_record",
-     "response_sbfn_dtc_status_snapshots_records", "response_sbfn_dtc_status_snapshots_records_record_first",
-     "response_subfn_mask_record_plus_extdata", "response_subfn_record_number_plus_dtc_mask_plus_extdata", "subfunctions_with_memory_selection"] = true ∧
-    Generated.dtcRespLists.length = 10 := by decide
+theorem dtc_request_dispatch : (List.range 256).map dtcReqMask = Generated.dtcReqMask := by decide +kernel
 
-/-- the response grouping of `interpret_response` -/
-def respGroupOf (sf : Nat) : DtcRespGroup :=
-  let m := fun n => (lst Generated.dtcRespLists n).contains sf
-  if m "response_subfn_dtc_availability_mask_plus_dtc_record" then .records4
-  else if m "response_subfn_dtc_availability_mask_plus_dtc_record_with_severity" then .records6
-  else if m "response_subfn_dtc_plus_fault_counter" then .faultCounter
-  else if m "response_subfn_dtc_plus_sapshot_record" then .snapIdent
-  else if m "response_subfn_number_of_dtc" then .count
-  else if m "response_sbfn_dtc_status_snapshots_records" then .snapByDtc
-  else if m "response_sbfn_dtc_status_snapshots_records_record_first" then .snapByRecord
-  else if m "response_subfn_mask_record_plus_extdata" then .extByDtc
-  else if m "response_subfn_record_number_plus_dtc_mask_plus_extdata" then .extByRecord
-  else if sf == 0x42 && Generated.dtcRespEq.contains 0x42 then .wwhMask
-  else if sf == 0x55 && Generated.dtcRespEq.contains 0x55 then .wwhPerm
-  else .echoOnly
+def errCode : PyErr → Nat
+  | .invalid => 1
+  | .valueErr => 2
+  | .config => 3
+  | .notImpl => 4
+  | _ => 9
 
-theorem resp_groups : ∀ sf : Fin 256, dtcRespGroup sf.val = respGroupOf sf.val := by decide +kernel
+def probeCfg : DtcCfg := { std := 2020, tol := true, ign := true, didSize := 2, dids := some { entries := [(0x5678, some 2)] }, ext := .int 2 }
 
-theorem memsel_list : ∀ sf : Fin 256, hasMemSel sf.val = (lst Generated.dtcRespLists "subfunctions_with_memory_selection").contains sf.val := by decide +kernel
+def dtcCode (r : Py DtcData) : Nat :=
+  match r with
+  | .error e => errCode e
+  | .ok d => 100 + 10 * min d.count 9 + min d.dtcs.length 9 + (if d.memSel.isSome then 1000 else 0)
 
-theorem edition_list : present Generated.dtcEditionLists ["subfunction2020"] = true ∧
-    ∀ sf : Fin 256, subfunction2020.contains sf.val = (lst Generated.dtcEditionLists "subfunction2020").contains sf.val := by
-  constructor
-  · decide
-  · decide +kernel
+def dtcRespSig (sf : Nat) : List Nat :=
+  Generated.dtcProbes.map (fun p => dtcCode (dtcInterpret probeCfg sf ((sf :: p).map UInt8.ofNat)))
+
+theorem dtc_response_dispatch : (List.range 256).map dtcRespSig = Generated.dtcRespSig := by decide +kernel
 
 /-! ### RequestFileTransfer -/
 
-theorem rft_lists_present : present Generated.rftReqLists ["use_dfi", "use_filesize"] = true ∧
-    present Generated.rftRespLists ["has_lfid", "has_dfi", "has_filesize_length", "has_uncompressed_filesize", "has_compressed_filesize", "has_fileposition"] = true := by decide
+def rftReqMask (m : Nat) : Nat :=
+  maskOf [isOk (rftMakeRequest m [0x61] none none), isOk (rftMakeRequest m [0x61] (some 0x11) none),
+          isOk (rftMakeRequest m [0x61] none (some (.int 0x100))), isOk (rftMakeRequest m [0x61] (some 0x11) (some (.int 0x100)))]
 
-theorem rft_request_lists : ∀ m : Fin 256,
-    rftUsesDfi (Int.ofNat m.val) = (lst Generated.rftReqLists "use_dfi").contains m.val ∧
-    rftUsesSize (Int.ofNat m.val) = (lst Generated.rftReqLists "use_filesize").contains m.val := by decide +kernel
+theorem rft_request_dispatch : (List.range 256).map rftReqMask = Generated.rftReqMask := by decide +kernel
 
-theorem rft_response_lists : ∀ m : Fin 256,
-    rftHasLfid m.val = (lst Generated.rftRespLists "has_lfid").contains m.val ∧
-    rftHasLfid m.val = (lst Generated.rftRespLists "has_dfi").contains m.val ∧
-    (m.val == 4 || m.val == 5) = (lst Generated.rftRespLists "has_filesize_length").contains m.val ∧
-    (m.val == 4 || m.val == 5) = (lst Generated.rftRespLists "has_uncompressed_filesize").contains m.val ∧
-    (m.val == 4) = (lst Generated.rftRespLists "has_compressed_filesize").contains m.val ∧
-    (m.val == 6) = (lst Generated.rftRespLists "has_fileposition").contains m.val := by decide +kernel
+def rftCode (r : Py SData) : Nat :=
+  match r with
+  | .error e => errCode e
+  | .ok (.rft _ ml dfi fs di fp) =>
+    100 + (if ml.isSome then 1 else 0) + (if dfi.isSome then 2 else 0) + (if fs.isSome then 4 else 0) + (if di.isSome then 8 else 0) + (if fp.isSome then 16 else 0)
+  | .ok _ => 9
+
+def rftRespSig (m : Nat) : List Nat := Generated.rftProbes.map (fun p => rftCode (rftInterpret true ((m :: p).map UInt8.ofNat)))
+
+theorem rft_response_dispatch : (List.range 256).map rftRespSig = Generated.rftRespSig := by decide +kernel
 
 end Uds.Tie.Groups
